@@ -9,6 +9,9 @@
 #include <csignal>
 #include <unistd.h>
 #include <cstdlib>
+#include <atomic>
+#include <thread>
+#include <vector>
 
 // VERIF_SIGNALS=1: a handled signal (no-op handler, SA_RESTART) may arrive at any time.  A blocking write(2) that has
 // already transferred part of its data when the signal arrives returns the short count - delivering the rest is the
@@ -54,6 +57,30 @@ int main()
     auto parts = split(line, ';');
     reader head(parts[0]);
     long bits = head.num();
+    // VERIF_THREADS=K: K threads, each with a stdout_channel and a terminal of its own, run the script at the same time.
+    // How their writes interleave on standard output is up to the scheduler; that no byte is lost or duplicated is not.
+    if (char const *tk = std::getenv("VERIF_THREADS")) {
+        int const k = std::atoi(tk);
+        std::vector<std::thread> pool;
+        std::atomic<int> ready{0};
+        for (int n = 0; n < k; ++n) {
+            pool.emplace_back([&]() {
+                terminalpp::stdout_channel tch;
+                terminal tt{tch, read_behaviour(bits)};
+                ++ready;
+                while (ready.load() < k) std::this_thread::yield();
+                for (std::size_t i = 1; i < parts.size(); ++i) {
+                    reader r(parts[i]);
+                    std::string op = r.word();
+                    if (op.empty()) continue;
+                    if (op == "lv" || op == "ux") op = r.word();
+                    apply_terminal_op(op, r, tt);
+                }
+            });
+        }
+        for (auto &th : pool) th.join();
+        return 0;
+    }
     // never destroyed: the atexit handler still uses them
     auto &ch = *new terminalpp::stdout_channel;
     auto &t = *new terminal{ch, read_behaviour(bits)};
